@@ -101,6 +101,22 @@ def game_check(prop, judged, tier, seed, fam_quick, fam_thorough, mc_roots_quick
     # (B) impl -> spec: randomized and search-shaped traces of the real Game
     n, games, plies, walk = play_quick if quick else play_thorough
     jobs += game.play_traces(run, vh, prop, n, games, plies, walk, seed)
+    if prop == "C01":
+        # the same question through the command line: `rustybait perft 2 <fen>` divide lines against Chess!Perft
+        import c12 as cli
+        binary = core.build_bin(False)
+        pool = gen.read_roots()
+        for ff in fams:
+            pool += [l.strip() for l in open(ff) if l.strip()][:: 40]
+        import random as _r
+        _r.Random(seed).shuffle(pool)
+        pool = pool[:24 if quick else 150]
+        dout = os.path.join(game.TRACES, prop, "divide.ndjson")
+        with open(dout, "w") as f:
+            for e in core.pmap(lambda fen: cli.divide(binary, fen, 2), pool):
+                f.write(json.dumps(e) + "\n")
+        jobs.append((dout, "rustybait perft 2 <fen> (divide) for %d positions" % len(pool)))
+        run.cov["cli_divides"] = len(pool)
     positions, pairs = set(), set()
     kinds = {}
     for path, desc in jobs:
@@ -629,6 +645,15 @@ def c06(tier, seed):
                 rep.append([srch.step(c["fen"], c["pre"], limit=dd, tag="perpetual-single-reply")])
             rep.append([srch.step(c["fen"], c["pre"][:5], limit=2, tag="perpetual-earlier"), srch.step(c["fen"], c["pre"], limit=2, tag="perpetual-single-reply")])
         run.cov["perpetual_scenarios"] = sum(1 for _ in open(cyc_out))
+        # self-play of the real binary (`auto`), every search cut after N polls by the hook: each move of the printed game
+        # must be a legal move of the position before it
+        import c12 as cli
+        binary = core.build_bin(False)
+        sp = core.pmap(lambda n: cli.selfplay(binary, n), [0, 25, 120, 600] if quick else [0, 1, 5, 25, 60, 120, 300, 600, 2000])
+        spf = os.path.join(game.TRACES, "C06", "selfplay.ndjson")
+        open(spf, "w").write("\n".join(json.dumps(e) for e in sp) + "\n")
+        game.judge_traces(run, [(spf, "rustybait auto with VERIF_STOP_AFTER=N (self-play transcripts)")], {"C06"})
+        run.cov["self_play_plies"] = [e["plies"] for e in sp]
         return [("scn", hs), ("tablehist", th), ("finishing", fin), ("repetition", rep), ("after-interrupt", inter)]
     search_check("C06", {"C06"}, tier, seed, build)
 
